@@ -33,6 +33,20 @@ theorem engine_verdicts_map_to_errors :
     (∀ e ∈ engineCalls, e.shape = .guardForward ∨ e.shape = .directReturn → e.fn = "VerifyAndNotifyNewPayload") := by
   decide
 
+/-- Regenerated from every fork's `ProcessBlock`: each of bellatrix, capella and deneb calls ProcessExecutionPayload
+exactly once, in the guarded shape, and the only conditions around the call are the specification's — bellatrix
+`is_execution_enabled`, from capella on none: no fast path lets a block through without the payload step (and so
+without the engine). -/
+theorem payload_step_placed_as_specified :
+    payloadSteps.map (·.pkg) = ["bellatrix", "capella", "deneb"] ∧
+    ∀ s ∈ payloadSteps, s.calls = 1 ∧
+      (forkOfName s.pkg).map expectedPayloadGuards = some s.guards := by decide +kernel
+
+/-- what the placement means: from capella on the payload step runs whatever the state and payload look like -/
+theorem payload_step_unconditional_from_capella (b : Bool) :
+    payloadStepRuns .capella b = true ∧ payloadStepRuns .deneb b = true ∧ payloadStepRuns .bellatrix b = b := by
+  cases b <;> decide
+
 /-- every sub-transition that polled the context at its head on the pinned tree still does -/
 theorem head_polls_kept : ∀ f ∈ Zrnt.Fault.headPollBaseline, f ∈ headPolls := by decide +kernel
 
